@@ -158,8 +158,11 @@ def _decide(res, src, dst, dst_asts, A, B, inputs, V, vis_exact, vname, costs, o
         dst_sigs = set()
 
     def sigs_of(e):
-        rs = [_re.compile(r) for r in e["match"]["nonempty_result_preds"]]
-        return [sg for sg in sorted(dst_sigs) if any(r.search(sg[0]) for r in rs)]
+        m = e["match"]
+        if m.get("kind", "nonempty") == "dom_superset":
+            return [{"kind": "dom_superset", "prefix": m["prefix"]}]
+        rs = [_re.compile(r) for r in m["nonempty_result_preds"]]
+        return [{"kind": "nonempty", "sigs": [sg for sg in sorted(dst_sigs) if any(r.search(sg[0]) for r in rs)]}]
 
     regexes = [sg for e in kf_classes if e["id"] in known for sg in sigs_of(e)]
     for qname, X, Y in queries:
@@ -252,25 +255,45 @@ def _decide(res, src, dst, dst_asts, A, B, inputs, V, vis_exact, vname, costs, o
 
 
 def class_signature_holds(entry, dst, instance, consts):
-    """signature of a class-identified known finding: some predicate of the result program whose name matches
-    one of the entry's regexes has no ground atom at all for this instance"""
+    """does the replayed counterexample belong to the instance class of a class-identified known finding?
+    nonempty    : some predicate of the result whose name matches a regex has no ground atom for this instance
+    dom_superset: in some answer set of result+instance an atom q(t) is true while <prefix>q(t) is false"""
     import re as _re
 
     import clingo
 
     from . import astutil
 
-    regs = [_re.compile(r) for r in entry["match"]["nonempty_result_preds"]]
+    m = entry["match"]
     try:
-        sigs = {s for s in astutil.program_sigs(astutil.parse(dst)) if any(r.search(s[0]) for r in regs)}
+        all_sigs = astutil.program_sigs(astutil.parse(dst))
     except RuntimeError:
         return False
-    if not sigs:
-        return False
-    args = []
+    args = ["0"]
     for c in consts:
         args += ["-c", c]
-    ctl = clingo.Control(args, logger=lambda c, m: None)
+    extra = ""
+    if m.get("kind", "nonempty") == "dom_superset":
+        pre = m["prefix"]
+        pairs = [(n, a) for (n, a) in all_sigs if not n.startswith(pre) and (pre + n, a) in all_sigs]
+        if not pairs:
+            return False
+        for n, a in pairs:
+            vs = ",".join(f"X{i}" for i in range(a))
+            extra += f"__vf_bad :- {n}({vs}), not {pre}{n}({vs}).\n" if a else f"__vf_bad :- {n}, not {pre}{n}.\n"
+        extra += ":- not __vf_bad.\n"
+        ctl = clingo.Control(args + ["--opt-mode=ignore"], logger=lambda c, m_: None)
+        try:
+            ctl.add("base", [], dst + "\n" + instance + "\n" + extra)
+            ctl.ground([("base", [])])
+        except RuntimeError:
+            return False
+        return bool(ctl.solve().satisfiable)
+    regs = [_re.compile(r) for r in m["nonempty_result_preds"]]
+    sigs = {s for s in all_sigs if any(r.search(s[0]) for r in regs)}
+    if not sigs:
+        return False
+    ctl = clingo.Control(args, logger=lambda c, m_: None)
     try:
         ctl.add("base", [], dst + "\n" + instance)
         ctl.ground([("base", [])])
